@@ -16,7 +16,7 @@ from mc import core
 LEVEL = 'model_checking'
 RULE = ('every digraph in the bound (edge set incl. self-loops and back edges) x every comb/seq kind assignment x every '
         'instantiation order (n!) x placement (flat / split over two structural children / late addition after a first '
-        'getSimulator() / Simulator(hw) instantiated directly on a system that already has its simulator / class-identity variants for n <= 2: behaviour added by a subclass of an instantiated port-only class, a '
+        'getSimulator() / split with the same leaf names in both children / Simulator(hw) instantiated directly on a system that already has its simulator / class-identity variants for n <= 2: behaviour added by a subclass of an instantiated port-only class, a '
         'structural class with the short name of the primitive); kinds c (comb), s (register), m (Mealy leaf with clock() and propagate()); for accepted netlists BFS over register states x all 2^n input vectors with a plain-Python '
         'netlist evaluator as reference, topological-order and fixpoint checks in every state; netlists with a '
         'combinational cycle must be refused. non-trivial = input vector on which some node output is 1')
@@ -158,7 +158,7 @@ def build(n, edges, kinds, order, placement):
     x = [hw.wire('x%d' % j) for j in range(n)]
     o = [(hw.wire('n%d_o0' % j), hw.wire('n%d_o1' % j)) for j in range(n)]
     parents = [hw] * n
-    if placement[0] == 'split':
+    if placement[0] in ('split', 'splitsame'):
         ga, gb = Logic(hw, 'ga'), Logic(hw, 'gb')
         parents = [ga if (placement[1] >> j) & 1 else gb for j in range(n)]
     c = types.SimpleNamespace(sys=hw, free=x, n=n, edges=edges, kinds=kinds, o=o, nodes={})
@@ -185,7 +185,11 @@ def build(n, edges, kinds, order, placement):
         if p is not hw:
             for k, w in enumerate(ins):
                 pass
-        c.nodes[j] = cls(p, 'n%d' % j, ins, o[j][0], o[j][1])
+        nm = 'n%d' % j
+        if placement[0] == 'splitsame':
+            # instance names are unique per parent only: both structural children number their leaves from n0
+            nm = 'n%d' % sum(1 for jj in range(j) if parents[jj] is p)
+        c.nodes[j] = cls(p, nm, ins, o[j][0], o[j][1])
     c.inst = inst
     c.order = list(order)
     return c
@@ -394,6 +398,10 @@ def kind_sets(n, mode):
         out = [k for k in itertools.product('cs', repeat=n)]
         out += [k for k in itertools.product('csm', repeat=n) if k.count('m') == 1 or k.count('m') == n]
         return out
+    if mode == 'cs':
+        return [k for k in itertools.product('cs', repeat=n)]
+    if mode == 'm':
+        return [k for k in itertools.product('csm', repeat=n) if k.count('m') == 1 or k.count('m') == n]
     if mode == 'comb':
         return [tuple('c' * n)]
     if mode == 'mixed6':
@@ -410,6 +418,8 @@ def placements(n, mode):
         out += [('cls', 'subfirst'), ('cls', 'sublast'), ('cls', 'samename')]
     if mode in ('full', 'some'):
         out += [('direct',)]
+    if mode in ('full', 'some') and n >= 2:
+        out += [('splitsame', m) for m in sorted({0b0101 & ((1 << n) - 1), 0b0110 & ((1 << n) - 1)}) if 0 < m < (1 << n) - 1]
     if mode in ('full',):
         out += [('split', m) for m in range(1, (1 << n) - 1)]
         out += [('late', k) for k in range(1, n)]
@@ -527,9 +537,63 @@ def run_cross(d, res):
             res['_outcomes'].add(tuple(a.value for a, b in A.o))
 
 
+def run_long(d, res):
+    """scale: long chains / ladders of combinational blocks (with a register in the middle) in awkward instantiation orders; the
+    netlist is acyclic, so it must be accepted, sorted topologically, at its fixpoint, and right for a handful of input vectors"""
+    n = d['n']
+    edges = [(i, i + 1) for i in range(n - 1)] + [(i, i + 3) for i in range(0, n - 3, 5)]
+    kinds = ['s' if i == n // 2 else 'c' for i in range(n)]
+    half = n // 2
+    orders = {
+        'reversed': list(range(n - 1, -1, -1)),
+        'forward': list(range(n)),
+        'evens_then_odds_reversed': list(range(n - 2 + n % 2, -1, -2)) + list(range(n - 1 - n % 2, -1, -2)),
+        'halves_swapped': list(range(half, n)) + list(range(half)),
+        'stride7': sorted(range(n), key=lambda i: ((i * 7) % n, i)),
+    }
+    vecs = [tuple([0] * n), tuple([1] * n), tuple([1] + [0] * (n - 1)), tuple(i & 1 for i in range(n)), tuple([0] * (n - 1) + [1])]
+    for oname, order in orders.items():
+        for pl in (('flat',), ('split', int('01' * 40, 2) & ((1 << n) - 1))):
+            res['programs'] += 1
+            desc = {'family': 'long', 'n': n, 'order': oname, 'placement': list(pl)}
+            try:
+                with core.quiet():
+                    c = build(n, edges, kinds, order, pl)
+                    for j in c.order:
+                        c.inst(j)
+                    c.sim = c.sys.getSimulator()
+            except Exception as e:
+                core.reset_prepared()
+                res['violations'].append({'sig': 'C04:acyclic_refused', 'shard': desc, 'trace': [], 'detail': {'exception': repr(e)[:200]}})
+                continue
+            c.regs = {half: (0, 0)}
+            bad = structural_check(c) or fixpoint_check(c) or value_check(c, (0,) * n)
+            tr = []
+            for x in vecs:
+                if bad:
+                    break
+                for w, v in zip(c.free, x):
+                    w.put(v)
+                c.sim.clk(0)
+                vals = model_eval(n, edges, kinds, c.regs, x)
+                c.sim.clk(1)
+                c.regs = model_next(n, edges, kinds, vals, x)
+                tr.append(list(x))
+                res['evaluations'] += 1
+                res['distinct_nontrivial'] += 1
+                bad = structural_check(c) or fixpoint_check(c) or value_check(c, x)
+                res['_outcomes'].add(tuple(a.value for a, b in c.o))
+            if bad:
+                sig = 'C04:%s' % bad['sigkey']
+                if not any(v['sig'] == sig for v in res['violations']):
+                    res['violations'].append({'sig': sig, 'shard': desc, 'trace': tr, 'detail': bad})
+
+
 def shards(tier):
     out = []
     T = tier == 'thorough'
+    for n in ((48, 64, 100, 200) if T else (48, 64, 100)):
+        out.append({'n': n, 'space': 'long', 'lo': 0, 'hi': 1})
     for n in ((2, 3, 4, 5) if T else (2, 3, 4)):
         out.append({'n': n, 'space': 'iface', 'lo': 0, 'hi': 1})
     out.append({'n': 3, 'space': 'cross', 'lo': 0, 'hi': 1})
@@ -538,8 +602,13 @@ def shards(tier):
         total = 1 << (n * n)
         chunk = 8
         for lo in range(0, total, chunk):
-            out.append({'n': n, 'space': 'digraph', 'lo': lo, 'hi': min(total, lo + chunk), 'kinds': 'all',
-                        'place': 'full' if (T or n < 3) else 'some'})
+            if T and n == 3:
+                # thorough: every placement for the comb/register assignments, the usual subset for the Mealy-leaf assignments
+                out.append({'n': n, 'space': 'digraph', 'lo': lo, 'hi': min(total, lo + chunk), 'kinds': 'cs', 'place': 'full'})
+                out.append({'n': n, 'space': 'digraph', 'lo': lo, 'hi': min(total, lo + chunk), 'kinds': 'm', 'place': 'some'})
+            else:
+                out.append({'n': n, 'space': 'digraph', 'lo': lo, 'hi': min(total, lo + chunk), 'kinds': 'all',
+                            'place': 'full' if n < 3 else 'some'})
     # n = 4: DAG + one extra back edge / self-loop
     n = 4
     for code in range(64):
@@ -578,8 +647,8 @@ def run_shard(d):
     res = {'programs': 0, 'cyclic': 0, 'states': 0, 'transitions': 0, 'traces_validated_against_impl': 0,
            'evaluations': 0, 'distinct_nontrivial': 0, 'violations': [], 'samples': [], '_outcomes': set(),
            '_validate_every': 1 if n <= 2 else (3 if n == 3 else 8)}
-    if d['space'] in ('iface', 'cross'):
-        (run_iface if d['space'] == 'iface' else run_cross)(d, res)
+    if d['space'] in ('iface', 'cross', 'long'):
+        {'iface': run_iface, 'cross': run_cross, 'long': run_long}[d['space']](d, res)
         res['distinct_outcomes'] = len(res.pop('_outcomes'))
         res.pop('_validate_every')
         res['refused'] = res.pop('cyclic')
@@ -607,9 +676,9 @@ def finish(cov, results, tier):
 
 def replay(v):
     d = v['shard']
-    if d.get('family') in ('iface_chain', 'cross'):
+    if d.get('family') in ('iface_chain', 'cross', 'long'):
         res = {'programs': 0, 'evaluations': 0, 'distinct_nontrivial': 0, 'violations': [], '_outcomes': set()}
-        (run_iface if d['family'] == 'iface_chain' else run_cross)({'n': d.get('n', 3)}, res)
+        {'iface_chain': run_iface, 'cross': run_cross, 'long': run_long}[d['family']]({'n': d.get('n', 3)}, res)
         hit = [x for x in res['violations'] if x['sig'] == v['sig']]
         return {'violates': bool(hit), 'detail': hit[:1]}
     n, edges, kinds = d['n'], [tuple(e) for e in d['edges']], list(d['kinds'])
